@@ -39,7 +39,9 @@ class CallbacksUnit(Unit):
         for op in case["ops"]:
             if op[0] == "reg":
                 k = len(handles)
-                handles.append(cbs.register(CallbackType.ComputedStep, (lambda k: lambda *a: log.append(k))(k)))
+                # (what a callback returns is its own business: some return a truthy value)
+                handles.append(cbs.register(CallbackType.ComputedStep,
+                                            (lambda k: lambda *a: (log.append(k), k % 2 == 0)[1])(k)))
                 outs.append(["handle", k])
             elif op[0] == "unreg":
                 try:
